@@ -6,52 +6,51 @@ import (
 	"path/filepath"
 	"regexp"
 	"sort"
+	"strconv"
 	"strings"
 )
 
 const harnessRoot = "/verif/harness"
 
 var pkgLineRe = regexp.MustCompile(`(?m)^//verif:pkg (\S+)\s*$`)
+var dumpLineRe = regexp.MustCompile(`(?m)^//verif:dump (\S+)\s*$`)
+var assumeLineRe = regexp.MustCompile(`(?m)^//verif:assume (.*)$`)
 
 type planBuilder func(tier string) (*PropertyPlan, error)
 
-var planBuilders = map[string]planBuilder{}
+// generators produce additional harness sources for a property (name -> source).
+type generator func(tier string) (map[string]string, error)
+
+var generators = map[string][]generator{}
 
 func newPlan(id string) *PropertyPlan {
 	return &PropertyPlan{ID: id, Files: map[string][]HarnessFile{}}
 }
 
 // addSource registers a harness source (which must contain a //verif:pkg line).
-func (p *PropertyPlan) addSource(name, src string) error {
+func (p *PropertyPlan) addSource(name, src string, tier string) error {
 	m := pkgLineRe.FindStringSubmatch(src)
 	if m == nil {
 		return fmt.Errorf("harness source %s lacks //verif:pkg", name)
 	}
 	dir := m[1]
-	p.Files[dir] = append(p.Files[dir], HarnessFile{Name: "zz_verif_" + name + ".go", Content: src})
-	return nil
-}
-
-// addStatic adds every *.go file in /verif/harness/<ID>/.
-func (p *PropertyPlan) addStatic() error {
-	files, _ := filepath.Glob(filepath.Join(harnessRoot, p.ID, "*.go"))
-	sort.Strings(files)
-	for _, f := range files {
-		data, err := os.ReadFile(f)
-		if err != nil {
-			return err
+	for _, d := range dumpLineRe.FindAllStringSubmatch(src, -1) {
+		found := false
+		for _, x := range p.DumpDirs {
+			if x == d[1] {
+				found = true
+			}
 		}
-		base := strings.TrimSuffix(filepath.Base(f), ".go")
-		if err := p.addSource(strings.ToLower(p.ID)+"_"+base, string(data)); err != nil {
-			return err
+		if !found {
+			p.DumpDirs = append(p.DumpDirs, d[1])
 		}
 	}
+	for _, a := range assumeLineRe.FindAllStringSubmatch(src, -1) {
+		planAssumptions[p.ID] = append(planAssumptions[p.ID], strings.TrimSpace(a[1]))
+	}
+	src = expandLens(src, tier)
+	p.Files[dir] = append(p.Files[dir], HarnessFile{Name: "zz_verif_" + name + ".go", Content: src})
 	return nil
-}
-
-func readTemplate(id, name string) (string, error) {
-	data, err := os.ReadFile(filepath.Join(harnessRoot, id, name))
-	return string(data), err
 }
 
 // splitTemplate separates the preamble (everything before the first //verif:harness) from the
@@ -72,48 +71,84 @@ func splitTemplate(src string) (pre string, harnesses []string) {
 	return
 }
 
-func init() {
-	planBuilders["C46"] = func(tier string) (*PropertyPlan, error) {
-		p := newPlan("C46")
-		tmpl, err := readTemplate("C46", "rlp.go.tmpl")
+var lensRe = regexp.MustCompile(`\blens=(\d+)\.\.(\d+)`)
+var tlensRe = regexp.MustCompile(`\bthorough_lens=(\d+)\.\.(\d+)`)
+
+// expandLens instantiates harnesses whose name ends in _LLEN once per length in the range given
+// by lens=a..b (thorough_lens=a..b for the thorough tier): LLEN -> L<n>, LEN -> <n>.
+func expandLens(src string, tier string) string {
+	pre, hs := splitTemplate(src)
+	var sb strings.Builder
+	sb.WriteString(pre)
+	for _, h := range hs {
+		first := h[:strings.Index(h, "\n")]
+		m := lensRe.FindStringSubmatch(first)
+		if tier == "thorough" {
+			if tm := tlensRe.FindStringSubmatch(first); tm != nil {
+				m = tm
+			}
+		}
+		if m == nil || !strings.Contains(h, "LLEN") {
+			sb.WriteString(h)
+			continue
+		}
+		lo, _ := strconv.Atoi(m[1])
+		hi, _ := strconv.Atoi(m[2])
+		for n := lo; n <= hi; n++ {
+			s := strings.ReplaceAll(h, "LLEN", fmt.Sprintf("L%d", n))
+			s = strings.ReplaceAll(s, "LEN", fmt.Sprintf("%d", n))
+			sb.WriteString(s)
+		}
+	}
+	return sb.String()
+}
+
+// buildPlan: all *.go files of /verif/harness/<ID>/ plus the property's generators.
+func buildPlan(id string, tier string) (*PropertyPlan, error) {
+	p := newPlan(id)
+	planAssumptions[id] = nil
+	files, _ := filepath.Glob(filepath.Join(harnessRoot, id, "*.go"))
+	sort.Strings(files)
+	for _, f := range files {
+		data, err := os.ReadFile(f)
 		if err != nil {
 			return nil, err
 		}
-		pre, hs := splitTemplate(tmpl)
-		maxLen := map[string]int{"ReadSize": 10, "DecodeString": 10, "DecodeList": 4, "DecodeListLongItem": 10}
-		if tier == "thorough" {
-			maxLen = map[string]int{"ReadSize": 12, "DecodeString": 14, "DecodeList": 6, "DecodeListLongItem": 12}
-		}
-		var sb strings.Builder
-		sb.WriteString(pre)
-		for _, h := range hs {
-			for kind, mx := range maxLen {
-				if !strings.Contains(h, "ZZ_C46_"+kind+"_LLEN") {
-					continue
-				}
-				for n := minLenFor(kind); n <= mx; n++ {
-					s := strings.ReplaceAll(h, "LLEN", fmt.Sprintf("L%d", n))
-					s = strings.ReplaceAll(s, "LEN", fmt.Sprintf("%d", n))
-					sb.WriteString(s)
-				}
-			}
-		}
-		if err := p.addSource("c46_rlp", sb.String()); err != nil {
+		base := strings.TrimSuffix(filepath.Base(f), ".go")
+		if err := p.addSource(strings.ToLower(id)+"_"+base, string(data), tier); err != nil {
 			return nil, err
 		}
-		planAssumptions["C46"] = []string{
-			"input length bounded (see bounds); every byte value and 8-byte length prefixes up to 2^64-1 are inside the bound",
-			"DecodeString/DecodeList are called with startIndex 0 as the Cadence wrappers do; ReadSize with arbitrary startIndex >= 0",
-			"array-value conversion in stdlib/rlp.go (atree) is outside the claim; its trailing-bytes test is checked on the symbolic results",
-			"slice growth policy of append is modelled as doubling (not observable by the code under test)",
-		}
-		return p, nil
 	}
+	for _, g := range generators[id] {
+		srcs, err := g(tier)
+		if err != nil {
+			return nil, err
+		}
+		var names []string
+		for n := range srcs {
+			names = append(names, n)
+		}
+		sort.Strings(names)
+		for _, n := range names {
+			if err := p.addSource(strings.ToLower(id)+"_gen_"+n, srcs[n], tier); err != nil {
+				return nil, err
+			}
+		}
+	}
+	if len(p.Files) == 0 {
+		return nil, fmt.Errorf("no harnesses for property %s", id)
+	}
+	return p, nil
 }
 
-func minLenFor(kind string) int {
-	if kind == "DecodeListLongItem" {
-		return 3
+func knownProperties() []string {
+	seen := map[string]bool{}
+	dirs, _ := filepath.Glob(filepath.Join(harnessRoot, "C*"))
+	for _, d := range dirs {
+		seen[filepath.Base(d)] = true
 	}
-	return 0
+	for id := range generators {
+		seen[id] = true
+	}
+	return keys(seen)
 }
